@@ -6,6 +6,7 @@ import (
 	"fmt"
 	"os"
 	"path/filepath"
+	"sort"
 )
 
 func writeIfChanged(path, content string) error {
@@ -16,23 +17,26 @@ func writeIfChanged(path, content string) error {
 	return os.WriteFile(path, []byte(content), 0o644)
 }
 
-var gens = map[string]func(repo string) (string, string, error){
-	"arith": func(repo string) (string, string, error) {
-		s, err := genArith(repo)
-		return "ArithFromGo.v", s, err
-	},
-	"policy": func(repo string) (string, string, error) {
-		s, err := genPolicy()
-		return "PolicyParams.v", s, err
-	},
-}
+// gens maps a target name to a generator returning (file name, content, error).
+// Each generator registers itself from an init() in its own file.
+var gens = map[string]func(repo string) (string, string, error){}
+
+func register(name string, g func(repo string) (string, string, error)) { gens[name] = g }
 
 func main() {
 	repo := flag.String("repo", "/repo", "repository root")
 	out := flag.String("out", "", "output directory (coq/Gen)")
 	flag.Parse()
 	rc := 0
-	for _, what := range flag.Args() {
+	args := flag.Args()
+	if len(args) == 1 && args[0] == "all" {
+		args = nil
+		for k := range gens {
+			args = append(args, k)
+		}
+		sort.Strings(args)
+	}
+	for _, what := range args {
 		g, ok := gens[what]
 		if !ok {
 			fmt.Fprintf(os.Stderr, "translate: unknown target %q\n", what)
